@@ -28,7 +28,7 @@ FORMS_Q = ['mass', 'stiffness', 'convection', 'functional_phys', 'mass', 'reacti
 FORMS_T = FORMS_Q + ['reaction', 'convection', 'reaction_zero']
 
 def cases(tier, seed):
-    n = {'quick': 64, 'thorough': 1400}[tier]
+    n = {'quick': 64, 'thorough': 4200}[tier]
     forms = FORMS_Q if tier == 'quick' else FORMS_T
     for i in range(n):
         yield {'kind': 'asm', 'seed': seed, 'idx': i, 'form': forms[i % len(forms)], 'tier': tier}
